@@ -279,20 +279,31 @@ func (c *Ctx) isConstructorDepth(fn *ssa.Function, depth int) bool {
 }
 
 func (c *Ctx) freshValue(v ssa.Value, depth int) bool {
+	return c.freshValueSeen(v, depth, map[ssa.Value]bool{})
+}
+
+func (c *Ctx) freshValueSeen(v ssa.Value, depth int, seen map[ssa.Value]bool) bool {
+	if seen[v] {
+		return true // a loop-carried value is as fresh as what enters the loop and what the body makes
+	}
+	seen[v] = true
 	switch x := v.(type) {
 	case *ssa.Alloc:
 		return true
 	case *ssa.MakeInterface:
-		return c.freshValue(x.X, depth)
+		return c.freshValueSeen(x.X, depth, seen)
 	case *ssa.MakeMap, *ssa.MakeSlice:
 		return true
 	case *ssa.Call:
 		if f := x.Call.StaticCallee(); f != nil && c.isRepoFn(f) {
 			return c.isConstructorDepth(f, depth+1)
 		}
+		if bi, isB := x.Call.Value.(*ssa.Builtin); isB && bi.Name() == "append" && len(x.Call.Args) > 0 {
+			return c.freshValueSeen(x.Call.Args[0], depth, seen)
+		}
 	case *ssa.Phi:
 		for _, e := range x.Edges {
-			if !c.freshValue(e, depth) {
+			if !c.freshValueSeen(e, depth, seen) {
 				return false
 			}
 		}
